@@ -1556,6 +1556,238 @@ def origin_repro(oc):
 
 
 # -------------------------------------------------------------------------------------------------
+# ownership at write time: the stored object's Atom objects are ALSO atoms of another container
+# (created later without copying / adopted through add_atom or append_bond), alive or already
+# garbage-collected when the object is stored
+# -------------------------------------------------------------------------------------------------
+OWN_WRAP = ["Promolecule", "Connectivity", "Molecule", "add_atom", "append_bond"]
+OWN_SUBSET = ["all", "all-reversed", "last-two-reversed", "first-only"]
+
+
+def gen_own_cases(thorough):
+    out = []
+    for kind, shape in (("mol", [3, 2, 1]), ("ens", [3, 2, 2]), ("conf", [3, 2, 2])):
+        for life in ("alive", "collected"):
+            for wrap in OWN_WRAP:
+                for sub in OWN_SUBSET:
+                    if wrap in ("add_atom", "append_bond") and sub in ("all", "first-only"):
+                        continue
+                    out.append({"kind": kind, "shape": shape, "over": {"bond.label": "C1", "atom.label": "space"}, "wrap": wrap, "subset": sub, "life": life})
+    return out
+
+
+def _wrap_atoms(obj, wrap, subset):
+    """make (a subset of) obj's atoms atoms of a second container, without copying; returns it"""
+    from molli.chem import Promolecule, Connectivity
+
+    atoms = list(obj.atoms)
+    sel = {"all": atoms, "all-reversed": atoms[::-1], "last-two-reversed": atoms[-2:][::-1], "first-only": atoms[:1]}[subset]
+    if wrap == "Promolecule":
+        return Promolecule(list(sel))
+    if wrap == "Connectivity":
+        return Connectivity(list(sel))
+    if wrap == "Molecule":
+        return Molecule(list(sel))
+    other = Molecule([Atom("N"), Atom("N")])
+    other.coords = 0.0
+    if wrap == "add_atom":
+        for a in sel:
+            other.add_atom(a, [0.0, 0.0, 0.0])
+        return other
+    if wrap == "append_bond":
+        cn = Connectivity([Atom("N"), Atom("N")])
+        cn.append_bond(Bond(sel[0], sel[1] if len(sel) > 1 else cn.atoms[0]))
+        return cn
+    raise HarnessError(wrap)
+
+
+def eval_own(ctx, A, oc, seed, libs=None):
+    import gc as _gc
+
+    libs = libs or Libs(ctx.scratch)
+    case = {"kind": oc["kind"], "shape": oc["shape"], "over": oc["over"]}
+    lib = LIB_OF[oc["kind"]]
+    obj = build(A, oc["kind"], tuple(oc["shape"]), oc["over"], seed)
+    try:
+        other = _wrap_atoms(obj, oc["wrap"], oc["subset"])
+    except Exception as ex:
+        raise HarnessError(f"cannot wrap atoms for {oc}: {type(ex).__name__}: {ex}")
+    if oc["life"] == "collected":
+        del other
+        _gc.collect()
+    exp = snapshot(obj)  # by list position - after the atoms changed hands
+    res = {enc: roundtrip_batch(libs, lib, enc, [obj])[0] for enc in ("v2", "v1")}
+    sigs, outs, fails = classify(case, lib, exp, res)
+    ctx.count(evaluations=2, states=1, transitions=4, traces=2)
+    ctx.outcome(("own", outs))
+    ctx.nontrivial(("own", oc["kind"], oc["wrap"], oc["subset"], oc["life"]))
+    for sig, enc, symptom in sigs:
+        ctx.violation(
+            f"ownership[other-container-{oc['life']}]|{sig}",
+            f"{oc['kind']}: before it was stored its atoms ({oc['subset']}) were also made atoms of a second container ({oc['wrap']}, {oc['life']} at write time): {symptom} ({enc})",
+            dict(oc, mode="ownership", enc=enc),
+            repro=own_repro(oc, lib),
+        )
+
+
+def own_repro(oc, lib):
+    cls = "MoleculeLibrary" if lib == "mlib" else "ConformerLibrary"
+    mk = "ml.Molecule(atoms)" if oc["kind"] == "mol" else "ml.ConformerEnsemble(atoms, n_conformers=2)"
+    sel = {"all": "list(obj.atoms)", "all-reversed": "list(obj.atoms)[::-1]", "last-two-reversed": "list(obj.atoms)[-2:][::-1]", "first-only": "list(obj.atoms)[:1]"}[oc["subset"]]
+    w = {
+        "Promolecule": f"other = ml.chem.Promolecule({sel})",
+        "Connectivity": f"other = ml.chem.Connectivity({sel})",
+        "Molecule": f"other = ml.Molecule({sel})",
+        "add_atom": f"other = ml.Molecule(['N', 'N']); [other.add_atom(a, [0, 0, 0]) for a in {sel}]",
+        "append_bond": f"other = ml.chem.Connectivity(['N', 'N']); sel = {sel}; other.append_bond(Bond(sel[0], sel[1]))",
+    }[oc["wrap"]]
+    L = ["import os, gc, molli as ml", "from molli.chem import Atom, Bond", "atoms = [Atom('C'), Atom('H'), Atom('O')]", f"obj = {mk}; obj.coords = 0.0", "obj.append_bond(Bond(atoms[0], atoms[1], label='C1')); obj.append_bond(Bond(atoms[1], atoms[2]))", w + "      # the same Atom objects, not copies"]
+    if oc["life"] == "collected":
+        L.append("del other; gc.collect()")
+    if oc["kind"] == "conf":
+        L.append("obj = obj[1]      # a Conformer view")
+    L += [f"p = '/tmp/c01_own.{lib}'", "if os.path.exists(p): os.unlink(p)", f"lib = ml.{cls}(p, readonly=False)", "with lib.writing(): lib['k'] = obj", "with lib.reading(): r = lib['k']", "print([(obj.atoms.index(b.a1), obj.atoms.index(b.a2)) for b in obj.bonds], '->', [(r.atoms.index(b.a1), r.atoms.index(b.a2)) for b in r.bonds])"]
+    return "\n".join(L)
+
+
+# -------------------------------------------------------------------------------------------------
+# the file is replaced under a long-lived handle: handle A has had a session; another handle
+# re-creates the library; A's next session must show the CURRENT file
+# -------------------------------------------------------------------------------------------------
+def gen_replace_cases(thorough):
+    out = []
+    for lib in ("mlib", "clib"):
+        for enc in ("v2", "v1") if thorough else ("v2",):
+            for sizes in ("equal", "different"):
+                for k in (2, 3):
+                    for delta in (-1, 0, 1):
+                        for first in ("reading", "writing"):
+                            for nxt in ("reading", "writing"):
+                                for how in ("overwrite", "unlink+create"):
+                                    out.append({"lib": lib, "enc": enc, "sizes": sizes, "k": k, "delta": delta, "first": first, "next": nxt, "how": how})
+    return out
+
+
+def _replace_one(libs, A, rc, seed):
+    """-> (symptom or None, judged?, outcome, transitions)"""
+    lib, enc, k = rc["lib"], rc["enc"], rc["k"]
+    # a fixed pool (not rotated by the seed): whether the re-created file is longer or shorter in
+    # bytes is part of the input class
+    objs, confs = _gen_objects(A, {"lib": lib, "sizes": rc["sizes"]}, 0)
+    exps = [snapshot(o) for o in objs]
+    path = libs.new_path(lib, enc)
+    ntr = 0
+    judged = True
+    rc["_bytes"] = "?"
+    try:
+        # the first life of the file: k records, written by A itself or before A exists
+        hA = libs.open(lib, path, readonly=False)
+        check_version(hA, enc)
+        if rc["first"] == "writing":
+            with hA.writing(timeout=10):
+                for j in range(k):
+                    hA[f"key{j}"] = objs[j]
+        else:
+            h0 = libs.open(lib, path, readonly=False)
+            with h0.writing(timeout=10):
+                for j in range(k):
+                    h0[f"key{j}"] = objs[j]
+            with hA.reading(timeout=10):
+                for j in range(k):
+                    hA[f"key{j}"]
+        ntr += k
+        size_before = path.stat().st_size
+        # the second life: another handle re-creates the library; keys in another order, every key
+        # now holds ANOTHER object
+        n2 = k + rc["delta"]
+        if rc["how"] == "unlink+create":
+            path.unlink()
+            if enc == "v1":
+                UKVFile(path, mode="x", h1=b"ML10Library").close()
+            hB = libs.open(lib, path, readonly=False)
+        else:
+            if enc == "v1":
+                # overwrite=True creates a current library; a legacy one is re-created by hand
+                path.unlink()
+                UKVFile(path, mode="x", h1=b"ML10Library").close()
+                hB = libs.open(lib, path, readonly=False)
+            else:
+                hB = libs.open(lib, path, readonly=False, overwrite=True)
+        check_version(hB, enc)
+        current = {}
+        with hB.writing(timeout=10):
+            for p_ in range(n2):
+                key = f"key{(p_ + 1) % n2}"
+                j = (p_ + 2) % 4
+                hB[key] = objs[j]
+                current[key] = j
+                ntr += 1
+        size_after = path.stat().st_size
+        rc["_bytes"] = "file-grew" if size_after > size_before else ("file-shrank" if size_after < size_before else "same-size")
+        if size_after == size_before:
+            judged = False  # the tree's own shortcut (same size => same file) is not judged here
+        # A's next session
+        cm = hA.reading(timeout=10) if rc["next"] == "reading" else hA.writing(timeout=10)
+        with cm:
+            ks = sorted(hA.keys())
+            if ks != sorted(current) or len(hA) != len(current):
+                return "old-handle-does-not-show-the-current-file", judged, ("keys",), ntr
+            for key in ks:
+                ntr += 1
+                try:
+                    g = snapshot(hA[key])
+                except Exception:
+                    return "old-handle-does-not-show-the-current-file", judged, ("exc",), ntr
+                if compare(exps[current[key]], g, enc, conf_source=confs[current[key]]):
+                    return "old-handle-does-not-show-the-current-file", judged, ("obj",), ntr
+        return None, judged, ("ok", len(current)), ntr
+    except HarnessError:
+        raise
+    except Exception as e:
+        return "raised", judged, ("exc", type(e).__name__), ntr
+    finally:
+        libs.done()
+
+
+def eval_replace(ctx, A, rc, seed, libs=None):
+    libs = libs or Libs(ctx.scratch)
+    sym, judged, out, ntr = _replace_one(libs, A, rc, seed)
+    ctx.count(evaluations=1, states=1, transitions=ntr, traces=1)
+    ctx.outcome(("replace", out))
+    ctx.nontrivial(("replace",) + tuple(sorted((k_, v) for k_, v in rc.items() if k_ != "_bytes")))
+    if not judged:
+        ctx.add_note("recreated-with-identical-size_(not_judged)")
+        if sym:
+            ctx.add_note("recreated-with-identical-size_(not_judged)_stale")
+        return
+    rc = {k_: v for k_, v in rc.items() if k_ != "_bytes"} | {"bytes": rc.get("_bytes")}
+    if sym:
+        ctx.violation(
+            f"replaced|{rc['lib']}|enc={rc['enc']}|records-of-{rc['sizes']}-size|{rc['bytes']}|{sym}",
+            f"handle A had a {rc['first']} session on a library of {rc['k']} records; another handle re-created the file ({rc['how']}) with {rc['k'] + rc['delta']} records, keys in another order; A's next {rc['next']} session: {sym}",
+            dict(rc, mode="replace"),
+            repro=replace_repro(rc),
+        )
+
+
+def replace_repro(rc):
+    cls = "MoleculeLibrary" if rc["lib"] == "mlib" else "ConformerLibrary"
+    mk = "ml.Molecule(['C', 'H'], name=f'obj{n}')" if rc["lib"] == "mlib" else "ml.ConformerEnsemble(['C', 'H'], n_conformers=2, name=f'obj{n}')"
+    k, n2 = rc["k"], rc["k"] + rc["delta"]
+    L = ["import os, molli as ml", f"p = '/tmp/c01_replaced.{rc['lib']}'", "if os.path.exists(p): os.unlink(p)", f"def mk(n): return {mk}     # records of identical encoded size", f"A = ml.{cls}(p, readonly=False)"]
+    if rc["first"] == "writing":
+        L += ["with A.writing():", f"    for j in range({k}): A[f'key{{j}}'] = mk(j)"]
+    else:
+        L += [f"setup = ml.{cls}(p, readonly=False)", "with setup.writing():", f"    for j in range({k}): setup[f'key{{j}}'] = mk(j)", "with A.reading(): print(sorted((k, A[k].name) for k in A.keys()))    # A's first session"]
+    if rc["how"] == "unlink+create":
+        L += ["os.unlink(p)", f"B = ml.{cls}(p, readonly=False)"]
+    else:
+        L.append(f"B = ml.{cls}(p, readonly=False, overwrite=True)")
+    L += ["with B.writing():", f"    for q in range({n2}): B[f'key{{(q + 1) % {n2}}}'] = mk((q + 2) % 4)", f"with A.{rc['next']}():", "    print(sorted((k, A[k].name) for k in A.keys()))", f"C = ml.{cls}(p)", "with C.reading(): print(sorted((k, C[k].name) for k in C.keys()))   # the two lines must agree"]
+    return "\n".join(L)
+
+
+# -------------------------------------------------------------------------------------------------
 # several libraries (different paths) written at the same time in one process: every library holds
 # exactly what was stored in IT
 # -------------------------------------------------------------------------------------------------
@@ -2284,6 +2516,14 @@ def _part(ctx, part):
     kind, payload = part
     if kind == "cases":
         eval_cases(ctx, A, payload, ctx.seed)
+    elif kind == "own":
+        libs = Libs(ctx.scratch)
+        for oc in payload:
+            eval_own(ctx, A, oc, ctx.seed, libs)
+    elif kind == "replace":
+        libs = Libs(ctx.scratch)
+        for rc in payload:
+            eval_replace(ctx, A, rc, ctx.seed, libs)
     elif kind == "origin":
         libs = Libs(ctx.scratch)
         failed_base = {}
@@ -2336,6 +2576,8 @@ def run(ctx):
         "a Conformer view stored in a MoleculeLibrary reads back as a Molecule with the conformer's fields",
         "objects are built by assigning record-level and atom fields after construction and by appending explicit Bond objects (never connect()), so that the stored object holds exactly the stated combination; bond sequences are compared in order and direction, including several bonds over one atom pair and a bond from an atom to itself; atoms of an ensemble are given through an atom list (the 0-atom ensemble through n_atoms=0)",
         "when v2 and v1 fail on the same case with the same symptom the violation is reported once with enc=any",
+        "an object may be stored while its Atom objects are also atoms of another container (created without copying, alive or already collected): what is stored is the object as its own atom and bond lists describe it",
+        "when another handle re-creates a library file (overwrite=True, or delete + create), the next session of a handle that had a session on the old file shows the current file; re-created files whose size equals the old file's size are counted in a note and not judged",
         "a library key is any str of at most 255 utf8 bytes (non-ASCII, blanks, slashes, the empty string - all accepted by the repaired tree); a longer key is rejected and leaves the library unchanged",
         "a library file that molli creates (absent path, or overwrite=True on anything) is a current (v2) library whatever was at the path and whatever header options (h1, comment) are given: everything stored in it reads back with all v2 fields in the same session, a new session and through default-constructed handles; only a file that carries the v1 magic is compared on the v1 schema; opening an empty or garbage file WITHOUT overwrite is not covered",
         "several library objects on different paths may be in writing() at the same time in one process (sessions nest per path), with any write buffer: afterwards each file holds exactly what was stored through its own handle",
@@ -2405,7 +2647,10 @@ def run(ctx):
         ("gen", [c for c in gens if sum(1 for x in c["d"] if x) <= 1]),
         ("keys", [c for c in keyc if len(c["keys"]) == 1]),
         ("origin", origins),
+        ("own", gen_own_cases(thorough)),
+        ("replace", gen_replace_cases(thorough)),
     ]
+    ctx.bound.update({"ownership_cases": len(first[-2][1]), "replaced_file_cases": len(first[-1][1])})
     ctx.pmap(_part, first)
     long_ = [c for c in ilvs if len(c["ops"]) > 4]
     parts += [("ilv", long_[i::nl]) for i in range(nl) if long_[i::nl]]
@@ -2427,6 +2672,12 @@ def replay(ctx, case):
     A = alphabets(True)
     if case.get("mode") == "sequence":
         eval_seq(ctx, A, case, ctx.seed)
+        return
+    if case.get("mode") == "ownership":
+        eval_own(ctx, A, {k: v for k, v in case.items() if k not in ("mode", "enc")}, ctx.seed)
+        return
+    if case.get("mode") == "replace":
+        eval_replace(ctx, A, {k: v for k, v in case.items() if k not in ("mode", "bytes")}, ctx.seed)
         return
     if case.get("mode") == "keys":
         eval_key(ctx, A, {k: v for k, v in case.items() if k != "mode"}, ctx.seed)
